@@ -30,7 +30,7 @@ from pyvc.core import Ledger, check_valid
 from pyvc.pool import collect, run_jobs
 from pyvc.report import A_FP, VENV_PY, VERIF
 
-LEVEL = "proof"
+LEVEL = "other"
 OV = "iodata.overlap"
 
 
